@@ -515,6 +515,7 @@ func checkC05(e *Engine, r *Report) {
 	r.Rule("R7", "SHAPE", "cumulative gas of a receipt is the running sum over the block's Ethereum transactions: own gas used + the per-transaction gas slots of all earlier transactions (which include the gas limit recorded for transactions that failed after the ante handler)", 1, func() {
 		loopOK, ownOK := cumulativeGasShape(e)
 		amwc := e.Fn(pkgEvmKeeper, "Keeper.ApplyMessageWithConfig")
+		r.Check(setupExecGasBeforeReceipt(e), "SetupExecutionContext › gas slot written before the assume-failed receipt is built", e.Pos(e.Fn(pkgEvmKeeper, "Keeper.SetupExecutionContext").Pos()), "SetGasUsedForCurrentTxTransient dominates the receipt computation", "the receipt kept for a transaction that fails outside EVM execution is computed before its gas slot (the gas limit) is written: it shows cumulative gas without the transaction's own charge although the sender pays the full gas limit")
 		r.Check(loopOK && ownOK, "ApplyMessageWithConfig › cumulative gas = own + Σ previous slots", e.Pos(amwc.Pos()), "gasUsed + Σ_{i<TxIndex} slot(i)", "the receipt's cumulative gas is not this transaction's gas plus the gas slots of the transactions before it (e.g. a running total kept in a store branch that is discarded when a transaction fails outside the EVM)")
 	})
 
